@@ -396,7 +396,8 @@ EXTRA_TEXT = {
     'C20': ' Ad-hoc actions the checker has to skip fill its batch '
            '(batch_size 1, 2, 10).',
 }
-HAS_OVERLAP = ('C01', 'C03', 'C04', 'C06', 'C07', 'C11', 'C13', 'C17')
+HAS_OVERLAP = ('C01', 'C03', 'C04', 'C06', 'C07', 'C08', 'C11', 'C13', 'C17',
+               'C20')
 
 
 def main():
